@@ -575,27 +575,27 @@ theorem slotParents_eq (a : AttrInfo) (kv : Val) : ∀ (ps : List Nat) (cv : Val
     cases hi : a.init <;> cases ho : (a.owner == p) <;> cases hc : ps.contains a.owner <;>
       simp_all [List.contains_cons, orKeep_idem]
 
-/-- **The constructor refines its specification**: run as Python runs it (parent constructors base-most
+/-- **The constructor stores what its specification says**: run as Python runs it (parent constructors base-most
 first, each assigning the attributes it owns from the forwarded keyword arguments, then the own attributes),
-every attribute ends up showing `shown a kv` — provided each init-enabled attribute is owned by one of the
-constructors that run. -/
-theorem construct_fields_eq (m : Nat) (ps : List Nat) : ∀ (as : List AttrInfo) (kw : Vals),
+every attribute ends up holding `storedSpec` — the passed value (copied unless `do_not_copy`) or the default —
+provided each init-enabled attribute is owned by one of the constructors that run. -/
+theorem init_fields_eq (m : Nat) (ps : List Nat) : ∀ (as : List AttrInfo) (kw : Vals),
     (∀ a ∈ as, a.init = true → (a.owner == m || ps.contains a.owner) = true) →
-    viewFields as (initOwn m true as kw (initParents ps as kw (allMissing as))) = specFields as kw := by
+    initOwn m true as kw (initParents ps as kw (allMissing as)) = storedSpec as kw := by
   intro as
   induction as with
   | nil => intro kw _; rfl
   | cons a as ih =>
     intro kw h
     have hcons := initParents_cons ps a as kw (allMissing (a :: as))
-    simp only [initOwn_cons, viewFields, specFields, hdV_cons, tlV_cons, hcons.1, hcons.2]
+    simp only [initOwn_cons, storedSpec, storedSlot, hcons.1, hcons.2]
     have htl : tlV (allMissing (a :: as)) = allMissing as := rfl
     have hhd : hdV (allMissing (a :: as)) = .missing := rfl
     rw [htl, hhd, ih (tlV kw) (fun b hb => h b (List.mem_cons_of_mem _ hb))]
     congr 1
     rw [slotOwn_top, slotParents_eq]
     have ha := h a (List.mem_cons_self ..)
-    unfold slotStep shown orKeep assigned
+    unfold slotStep orKeep assigned
     cases hi : a.init
     · simp
     · have ha' := ha hi
@@ -607,30 +607,142 @@ theorem construct_fields_eq (m : Nat) (ps : List Nat) : ∀ (as : List AttrInfo)
         | (have hdm := (isMissing_iff _).1 hd; simp [hk, hd, hdm])
         | simp [hk, hd]
 
+/-! ### what `getattr` shows for a stored state -/
+
+theorem showFrom_cons (as0 : List AttrInfo) (st0 : Vals) (a : AttrInfo) (as : List AttrInfo) (st : Vals) :
+    showFrom as0 st0 (a :: as) st = .cons (shownAttr as0 st0 a (hdV st)) (showFrom as0 st0 as (tlV st)) := rfl
+
+theorem nthVal_zero (kw : Vals) : nthVal kw 0 = hdV kw := by cases kw <;> rfl
+theorem nthVal_succ (kw : Vals) (i : Nat) : nthVal kw (i + 1) = nthVal (tlV kw) i := by
+  cases kw <;> simp [nthVal]
+
+theorem nthVal_showFrom (as0 : List AttrInfo) (st0 : Vals) : ∀ (as : List AttrInfo) (st : Vals) (i : Nat)
+    (h : i < as.length), nthVal (showFrom as0 st0 as st) i = shownAttr as0 st0 (as[i]) (nthVal st i) := by
+  intro as
+  induction as with
+  | nil => intro st i h; simp at h
+  | cons a as ih =>
+    intro st i h
+    cases i with
+    | zero => simp [showFrom, nthVal, nthVal_zero]
+    | succ i => simp [showFrom, nthVal, nthVal_succ, ih (tlV st) i (by simpa using h)]
+
+theorem nthVal_storedSpec : ∀ (as : List AttrInfo) (kw : Vals) (i : Nat) (h : i < as.length),
+    nthVal (storedSpec as kw) i =
+      storedSlot (as[i]) (nthVal kw i) := by
+  intro as
+  induction as with
+  | nil => intro kw i h; simp at h
+  | cons a as ih =>
+    intro kw i h
+    cases i with
+    | zero => simp [storedSpec, nthVal, nthVal_zero]
+    | succ i => simp [storedSpec, nthVal, nthVal_succ, ih (tlV kw) i (by simpa using h)]
+
+/-- A plain attribute shows its entry, else what the class shows. -/
+theorem shownAttr_plain (as : List AttrInfo) (st : Vals) {a : AttrInfo} (h : a.prop = none) (sv : Val) :
+    shownAttr as st a sv = if sv.isMissing then a.dflt else sv := by
+  unfold shownAttr; rw [h]
+
+/-- A stored value that the attribute honours is what is shown. -/
+theorem shownAttr_stored (as : List AttrInfo) (st : Vals) {a : AttrInfo} (h : a.storable = true) {sv : Val}
+    (hv : sv.isMissing = false) : shownAttr as st a sv = sv := by
+  unfold shownAttr
+  unfold AttrInfo.storable at h
+  cases hp : a.prop with
+  | none => simp [hv]
+  | some p => rw [hp] at h; simp at h; simp [hv, h]
+
+/-- Without property-backed attributes `getattr` shows the entry, else what the class shows (`viewFields`). -/
+theorem showFrom_plain (as0 : List AttrInfo) (st0 : Vals) : ∀ (as : List AttrInfo) (st : Vals),
+    (∀ a ∈ as, a.prop = none) → showFrom as0 st0 as st = viewFields as st := by
+  intro as
+  induction as with
+  | nil => intro st _; rfl
+  | cons a as ih =>
+    intro st h
+    rw [showFrom_cons, viewFields, shownAttr_plain _ _ (h a (List.mem_cons_self ..)),
+      ih (tlV st) (fun b hb => h b (List.mem_cons_of_mem _ hb))]
+
+/-- For a plain attribute the specification of the constructor is `shown a kv`. -/
+theorem nthVal_specFields_plain (as : List AttrInfo) (kw : Vals) (i : Nat) (h : i < as.length)
+    (hp : (as[i]).prop = none) : nthVal (specFields as kw) i = shown (as[i]) (nthVal kw i) := by
+  unfold specFields showS
+  rw [nthVal_showFrom _ _ _ _ _ h, nthVal_storedSpec _ _ _ h, shownAttr_plain _ _ hp]
+  unfold shown storedSlot
+  cases hi : (as[i]).init <;> cases hk : (nthVal kw i).isMissing <;> simp [hk]
+
 /-! ### re-construction -/
 
 theorem construct_eq_spec {T : Table} {c : Nat} (h : ownersOk T c = true) (kw : Vals) :
     construct T c kw = specFields (T.attrs c) kw := by
-  unfold construct initFields
-  apply construct_fields_eq
+  unfold construct initFields specFields
+  congr 1
+  apply init_fields_eq
   intro a ha hi
   unfold ownersOk at h
   have := (List.all_eq_true.1 h) a ha
   simpa [hi] using this
 
-theorem rcFields_cons (a : AttrInfo) (as : List AttrInfo) (v : Val) (r : Vals) :
-    rcFields (a :: as) (.cons v r) =
-      .cons (shown a (if a.init then (match v with
-        | .bound none f => .bound (some origId) f
-        | v => v) else .missing)) (rcFields as r) := rfl
-
 theorem attrEq_refl (T : Table) (v : Val) : attrEq T v v = true := by
   have := vEq_refl T v
   cases v <;> simp_all [attrEq]
 
-theorem rc_fields_eq (T : Table) : ∀ (as : List AttrInfo) (fs : Vals),
+theorem ownValues_cons (a : AttrInfo) (as : List AttrInfo) (v : Val) (r : Vals) :
+    ownValues (a :: as) (.cons v r) = .cons (ownValue a v) (ownValues as r) := rfl
+
+theorem storedSpec_cons (a : AttrInfo) (as : List AttrInfo) (kw : Vals) :
+    storedSpec (a :: as) kw = .cons (storedSlot a (hdV kw)) (storedSpec as (tlV kw)) := rfl
+
+/-- One attribute of the re-constructed instance: what it shows is attribute-equal to what the original shows. -/
+theorem rc_slot (T : Table) (as0 : List AttrInfo) (st0 : Vals) (a : AttrInfo) (v : Val) (hok : okVal v = true)
+    (h : (a.init = true ∧ v.isMissing = false ∧ a.storable = true) ∨ (a.prop = none ∧ attrEq T a.dflt v = true)) :
+    attrEq T (shownAttr as0 st0 a (storedSlot a (ownValue a v))) v = true := by
+  have hdc := ((dc_eq_all T).1 v hok).2
+  have hprot : attrEq T (protect a v) v = true := by
+    unfold protect; split
+    · exact attrEq_refl T v
+    · exact hdc
+  -- what is handed over and stored for a value that is there
+  have hpass : a.init = true → v.isMissing = false →
+      (storedSlot a (ownValue a v)).isMissing = false ∧ attrEq T (storedSlot a (ownValue a v)) v = true := by
+    intro hi hv
+    have h0 : (ownValue a v).isMissing = false ∧ attrEq T (protect a (ownValue a v)) v = true := by
+      cases v with
+      | missing => simp [Val.isMissing] at hv
+      | bound o f =>
+        cases o with
+        | none =>
+          have : ownValue a (.bound none f) = .bound (some origId) f := by simp [ownValue, hi]
+          rw [this]
+          refine ⟨rfl, ?_⟩
+          cases hd : a.doNotCopy <;> simp [protect, hd, attrEq, dcVal]
+        | some o =>
+          have : ownValue a (.bound (some o) f) = .bound (some o) f := by simp [ownValue, hi]
+          rw [this]; exact ⟨rfl, hprot⟩
+      | _ => exact ⟨by simp [ownValue, hi, Val.isMissing], by simpa [ownValue, hi] using hprot⟩
+    unfold storedSlot
+    rw [if_pos hi, if_neg (by simp [h0.1])]
+    exact ⟨by rw [protect_isMissing]; exact h0.1, h0.2⟩
+  rcases h with ⟨hi, hv, hs⟩ | ⟨hp, hd⟩
+  · obtain ⟨hm, he⟩ := hpass hi hv
+    rw [shownAttr_stored _ _ hs hm]; exact he
+  · rw [shownAttr_plain _ _ hp]
+    cases hi : a.init with
+    | false => simp [storedSlot, hi, hd]
+    | true =>
+      cases hv : v.isMissing with
+      | true =>
+        have : v = .missing := (isMissing_iff _).1 hv
+        subst this
+        simp [ownValue, storedSlot, hi, hd]
+      | false =>
+        obtain ⟨hm, he⟩ := hpass hi hv
+        rw [if_neg (by simp [hm])]; exact he
+
+theorem rc_fields_eq_gen (T : Table) (as0 : List AttrInfo) (st0 : Vals) : ∀ (as : List AttrInfo) (fs : Vals),
     okFields fs = true → reconstructible T as fs = true →
-    fieldsEq T as (rcFields as fs) fs = true := by
+    fieldsEq T as (showFrom as0 st0 as (storedSpec as (ownValues as fs))) fs = true := by
   intro as
   induction as with
   | nil => intro fs _ _; exact fieldsEq_nil T _ _
@@ -640,66 +752,493 @@ theorem rc_fields_eq (T : Table) : ∀ (as : List AttrInfo) (fs : Vals),
     | nil => simp [reconstructible] at hrc
     | cons v r =>
       simp only [okFields, Bool.and_eq_true] at hok
-      simp only [reconstructible, Bool.and_eq_true, Bool.or_eq_true, Bool.not_eq_true'] at hrc
+      simp only [reconstructible, Bool.and_eq_true, Bool.or_eq_true, Bool.not_eq_true',
+        Option.isNone_iff_eq_none] at hrc
       have hr := ih r hok.2 hrc.2
-      have hdc := ((dc_eq_all T).1 v hok.1).2
-      -- the new value of the attribute is attribute-equal to the old one whenever the attribute is compared
-      have key : ∀ v', (a.compare = false ∨ attrEq T v' v = true) →
-          fieldsEq T (a :: as) (.cons v' (rcFields as r)) (.cons v r) = true := by
-        intro v' h
-        rw [fieldsEq_cons, hr]
-        rcases h with h | h <;> simp [h]
-      have hd : a.compare = false ∨ (a.init = true ∧ v.isMissing = false) ∨ attrEq T a.dflt v = true := by
-        rcases hrc.1 with (h | h) | h
-        · exact Or.inl h
-        · exact Or.inr (Or.inl (by simpa using h))
-        · exact Or.inr (Or.inr h)
-      have hprot : attrEq T (protect a v) v = true := by
-        unfold protect; split
-        · exact attrEq_refl T v
-        · exact hdc
-      rw [rcFields_cons]
-      apply key
-      unfold shown
-      cases hi : a.init with
-      | false =>
-        simp only [Bool.false_eq_true, if_false]
-        rcases hd with h | h | h
-        · exact Or.inl h
-        · rw [hi] at h; cases h.1
-        · exact Or.inr h
-      | true =>
-        simp only [if_true]
-        cases v with
-        | missing =>
-          simp only [isMissing_missing, if_true]
-          rcases hd with h | h | h
-          · exact Or.inl h
-          · simp [Val.isMissing] at h
-          · exact Or.inr h
-        | bound o f =>
-          cases o with
-          | none =>
-            right
-            simp only [Val.isMissing, Bool.false_eq_true, if_false]
-            unfold protect; split <;> simp [attrEq, dcVal]
-          | some o => right; simpa [Val.isMissing] using hprot
-        | _ => right; simpa [Val.isMissing] using hprot
+      rw [ownValues_cons, storedSpec_cons, showFrom_cons]
+      simp only [hdV_cons, tlV_cons]
+      rw [fieldsEq_cons, hr, Bool.and_true]
+      rcases hrc.1 with (h | h) | h
+      · simp [h]
+      · rw [rc_slot T as0 st0 a v hok.1 (Or.inl ⟨h.1.1, h.1.2, h.2⟩)]; simp
+      · rw [rc_slot T as0 st0 a v hok.1 (Or.inr h)]; simp
 
-theorem nthVal_zero (kw : Vals) : nthVal kw 0 = hdV kw := by cases kw <;> rfl
-theorem nthVal_succ (kw : Vals) (i : Nat) : nthVal kw (i + 1) = nthVal (tlV kw) i := by
-  cases kw <;> simp [nthVal]
+theorem rc_fields_eq (T : Table) (as : List AttrInfo) (fs : Vals)
+    (hok : okFields fs = true) (hrc : reconstructible T as fs = true) :
+    fieldsEq T as (rcFields as fs) fs = true := by
+  unfold rcFields specFields showS
+  exact rc_fields_eq_gen T as _ as fs hok hrc
 
-theorem nthVal_specFields : ∀ (as : List AttrInfo) (kw : Vals) (i : Nat) (h : i < as.length),
-    nthVal (specFields as kw) i = shown (as[i]) (nthVal kw i) := by
+/-! ### deepcopy of the stored state, as `getattr` shows it (property-backed attributes included) -/
+
+/-- `DeepCopyMethod.deepcopy` on one `__dict__` entry. -/
+def dcSlot (a : AttrInfo) (v : Val) : Val :=
+  match v with
+  | .bound none f => .bound none f
+  | v => if a.doNotCopy then v else dcVal v
+
+theorem dcFields_cons (a : AttrInfo) (as : List AttrInfo) (v : Val) (r : Vals) :
+    dcFields (a :: as) (.cons v r) = .cons (dcSlot a v) (dcFields as r) := by
+  cases v with
+  | bound o f => cases o <;> simp only [dcFields, dcSlot] <;> split <;> rfl
+  | _ => simp only [dcFields, dcSlot] <;> split <;> rfl
+
+theorem dcFields_nil (as : List AttrInfo) : dcFields as .nil = .nil := by
+  cases as <;> rfl
+
+theorem dcSlot_isMissing (a : AttrInfo) (v : Val) : (dcSlot a v).isMissing = v.isMissing := by
+  cases v with
+  | bound o f => cases o <;> simp only [dcSlot] <;> (try split) <;> rfl
+  | _ => simp only [dcSlot] <;> split <;> rfl
+
+theorem dcSlot_attrEq (T : Table) (a : AttrInfo) {v : Val} (hok : okVal v = true) :
+    attrEq T (dcSlot a v) v = true := by
+  have hdc := ((dc_eq_all T).1 v hok).2
+  cases v with
+  | bound o f =>
+    cases o with
+    | none => simp [dcSlot, attrEq]
+    | some o => simp only [dcSlot]; split
+                · exact attrEq_refl T _
+                · exact hdc
+  | _ =>
+    simp only [dcSlot]; split
+    · exact attrEq_refl T _
+    · exact hdc
+
+theorem okFields_nth : ∀ (st : Vals) (j : Nat), okFields st = true → okVal (nthVal st j) = true := by
+  intro st j
+  induction j generalizing st with
+  | zero =>
+    intro h
+    cases st with
+    | nil => rfl
+    | cons v r => simp only [okFields, Bool.and_eq_true] at h; exact h.1
+  | succ j ih =>
+    intro h
+    cases st with
+    | nil => rfl
+    | cons v r => simp only [okFields, Bool.and_eq_true] at h; exact ih r h.2
+
+theorem nthVal_dcFields : ∀ (as : List AttrInfo) (st : Vals) (j : Nat) (a : AttrInfo), as[j]? = some a →
+    nthVal (dcFields as st) j = dcSlot a (nthVal st j) := by
   intro as
   induction as with
-  | nil => intro kw i h; simp at h
+  | nil => intro st j a h; simp at h
+  | cons b as ih =>
+    intro st j a h
+    cases st with
+    | nil =>
+      rw [dcFields_nil]
+      have : nthVal .nil j = .missing := by cases j <;> rfl
+      rw [this]
+      simp only [dcSlot]; split <;> rfl
+    | cons v r =>
+      rw [dcFields_cons]
+      cases j with
+      | zero => simp at h; subst h; rfl
+      | succ j => simpa [nthVal] using ih r j a (by simpa using h)
+
+/-- What a getter reads on the copy is attribute-equal to what it reads on the original. -/
+theorem plainAt_dc (T : Table) (as : List AttrInfo) (st : Vals) (hok : okFields st = true) (j : Nat) :
+    attrEq T (plainAt as (dcFields as st) j) (plainAt as st j) = true := by
+  unfold plainAt
+  cases h : as[j]? with
+  | none => rfl
+  | some a =>
+    simp only
+    rw [nthVal_dcFields as st j a h, dcSlot_isMissing]
+    split
+    · exact attrEq_refl T _
+    · exact dcSlot_attrEq T a (okFields_nth st j hok)
+
+/-- One attribute of the copy shows something attribute-equal to what the original shows. -/
+theorem show_slot (T : Table) (as0 : List AttrInfo) (st0 st0' : Vals)
+    (H : ∀ j, attrEq T (plainAt as0 st0' j) (plainAt as0 st0 j) = true)
+    (a : AttrInfo) {v : Val} (hok : okVal v = true) :
+    attrEq T (shownAttr as0 st0' a (dcSlot a v)) (shownAttr as0 st0 a v) = true := by
+  unfold shownAttr
+  cases hp : a.prop with
+  | none =>
+    simp only [dcSlot_isMissing]
+    split
+    · exact attrEq_refl T _
+    · exact dcSlot_attrEq T a hok
+  | some p =>
+    simp only [dcSlot_isMissing]
+    split
+    · exact dcSlot_attrEq T a hok
+    · cases p.getter with
+      | const k => exact attrEq_refl T _
+      | sameAs j => exact H j
+
+theorem show_dc_gen (T : Table) (as0 : List AttrInfo) (st0 st0' : Vals)
+    (H : ∀ j, attrEq T (plainAt as0 st0' j) (plainAt as0 st0 j) = true) :
+    ∀ (as : List AttrInfo) (st : Vals), okFields st = true →
+      fieldsEq T as (showFrom as0 st0' as (dcFields as st)) (showFrom as0 st0 as st) = true := by
+  intro as
+  induction as with
+  | nil => intro st _; exact fieldsEq_nil T _ _
   | cons a as ih =>
-    intro kw i h
-    cases i with
-    | zero => simp [specFields, nthVal, nthVal_zero]
-    | succ i => simp [specFields, nthVal, nthVal_succ, ih (tlV kw) i (by simpa using h)]
+    intro st hok
+    cases st with
+    | nil =>
+      rw [dcFields_nil, showFrom_cons, showFrom_cons, fieldsEq_cons]
+      have := ih .nil rfl
+      rw [dcFields_nil] at this
+      simp only [hdV_nil, tlV_nil]
+      rw [this, Bool.and_true]
+      have hs := show_slot T as0 st0 st0' H a (v := .missing) rfl
+      have hm : dcSlot a .missing = .missing := by simp only [dcSlot]; split <;> rfl
+      rw [hm] at hs
+      simp [hs]
+    | cons v r =>
+      simp only [okFields, Bool.and_eq_true] at hok
+      rw [dcFields_cons, showFrom_cons, showFrom_cons, fieldsEq_cons]
+      simp only [hdV_cons, tlV_cons]
+      rw [ih r hok.2, show_slot T as0 st0 st0' H a hok.1]
+      simp
+
+/-- **deepcopy of the stored state** — entry by entry (`dcFields`: self-bound methods re-bound, `do_not_copy`
+entries shared, the rest deep-copied; entries that are not there stay absent) — shows, attribute by attribute,
+something attribute-equal to what the original shows; also for attributes backed by a `spec_property`, whose value
+is an assigned override or a memoised result (both are `__dict__` entries and copied as such) or else recomputed by
+the getter on the copy (a constant, or another attribute of the copy). -/
+theorem copyShows_fieldsEq (T : Table) (as : List AttrInfo) (st : Vals) (hok : okFields st = true) :
+    fieldsEq T as (showS as (dcFields as st)) (showS as st) = true := by
+  unfold showS
+  exact show_dc_gen T as st (dcFields as st) (plainAt_dc T as st hok) as st hok
+
+/-! ### `==` with one self-referential operand -/
+
+/-- What `EqMethod.eq` compares for one attribute when one operand refers to itself. -/
+def cAttr (T : Table) (flip : Bool) (self v w : Val) : Bool :=
+  match v, w with
+  | .bound _ f, .bound _ g => if flip then g == f else f == g
+  | _, _ => cEq T flip self v w
+
+theorem cFields_cons (T : Table) (flip : Bool) (self : Val) (a : AttrInfo) (as : List AttrInfo) (v w : Val)
+    (r s : Vals) :
+    cFields T flip self (a :: as) (.cons v r) (.cons w s) =
+      ((!a.compare || cAttr T flip self v w) && cFields T flip self as r s) := by
+  cases v <;> cases w <;> simp [cFields, cAttr]
+
+theorem cFields_nil_attrs (T : Table) (flip : Bool) (self : Val) (xs ys : Vals) :
+    cFields T flip self [] xs ys = true := by
+  rw [cFields]
+
+theorem cAttr_closed (T : Table) (self v w : Val)
+    (h : cEq T false self v w = vEq T v w ∧ cEq T true self v w = vEq T w v) :
+    cAttr T false self v w = attrEq T v w ∧ cAttr T true self v w = attrEq T w v := by
+  cases v <;> cases w <;> simp_all [cAttr, attrEq]
+
+/-- **`cEq` is `==` on finite trees**: when the "cyclic" operand does not refer to itself either, the comparison
+through `cEq` is exactly Python's `==` (`vEq`), in both orientations. -/
+theorem cEq_closed_all (T : Table) :
+    (∀ w self v, closed v = true →
+        cEq T false self v w = vEq T v w ∧ cEq T true self v w = vEq T w v) ∧
+    (∀ ys self xs, closedVals xs = true →
+        (cVals T false self xs ys = valsEq T xs ys ∧ cVals T true self xs ys = valsEq T ys xs) ∧
+        (∀ as, cFields T false self as xs ys = fieldsEq T as xs ys ∧
+               cFields T true self as xs ys = fieldsEq T as ys xs)) ∧
+    (∀ ys self xs, closedKVs xs = true →
+        cKVs T false self xs ys = kvsEq T xs ys ∧ cKVs T true self xs ys = kvsEq T ys xs) := by
+  apply val_induction
+  · intro self v _; simp [cEq]
+  · intro n self v _; simp [cEq]
+  · intro t self v _; simp [cEq]
+  · intro n self v _; simp [cEq]
+  · intro ys ih self v hv
+    cases v with
+    | list xs => simpa [cEq, vEq] using (ih self xs (by simpa [closed] using hv)).1
+    | _ => simp [cEq, vEq]
+  · intro ys ih self v hv
+    cases v with
+    | dict xs => simpa [cEq, vEq] using ih self xs (by simpa [closed] using hv)
+    | _ => simp [cEq, vEq]
+  · intro ys ih self v hv
+    cases v with
+    | set xs => simpa [cEq, vEq] using (ih self xs (by simpa [closed] using hv)).1
+    | _ => simp [cEq, vEq]
+  · intro c2 f2 ih self v hv
+    cases v with
+    | inst c1 f1 =>
+      have h := fun as => (ih (.inst c1 f1) f1 (by simpa [closed] using hv)).2 as
+      simp only [cEq, resolve, vEq, Bool.false_eq_true, if_false, if_true]
+      refine ⟨?_, ?_⟩
+      · split <;> simp [(h _).1]
+      · split <;> simp [(h _).2]
+    | selfRef => simp [closed] at hv
+    | _ => simp [cEq, resolve, vEq]
+  · intro o f self v _; simp [cEq]
+  · intro i self v _; simp [cEq]
+  · intro i self v _; simp [cEq]
+  · intro i self v _; simp [cEq]
+  · intro self v _; simp [cEq]
+  · intro self v _; simp [cEq]
+  · intro self xs _
+    refine ⟨?_, ?_⟩
+    · cases xs <;> simp [cVals, valsEq]
+    · intro as
+      cases as with
+      | nil => simp [cFields_nil_attrs, fieldsEq_nil]
+      | cons a as => cases xs <;> simp [cFields, fieldsEq]
+  · intro w s hw hs self xs hx
+    cases xs with
+    | nil =>
+      refine ⟨by simp [cVals, valsEq], ?_⟩
+      intro as
+      cases as with
+      | nil => simp [cFields_nil_attrs, fieldsEq_nil]
+      | cons a as => simp [cFields, fieldsEq]
+    | cons v r =>
+      simp only [closedVals, Bool.and_eq_true] at hx
+      have hv := hw self v hx.1
+      have hr := hs self r hx.2
+      refine ⟨by simp [cVals, valsEq, hv.1, hv.2, hr.1.1, hr.1.2], ?_⟩
+      intro as
+      cases as with
+      | nil => simp [cFields_nil_attrs, fieldsEq_nil]
+      | cons a as =>
+        have ha := cAttr_closed T self v w hv
+        rw [cFields_cons, cFields_cons, fieldsEq_cons, fieldsEq_cons, ha.1, ha.2, (hr.2 as).1, (hr.2 as).2]
+        exact ⟨rfl, rfl⟩
+  · intro self xs _; cases xs <;> simp [cKVs, kvsEq]
+  · intro l w s _ hw hs self xs hx
+    cases xs with
+    | nil => simp [cKVs, kvsEq]
+    | cons k v r =>
+      simp only [closedKVs, Bool.and_eq_true] at hx
+      have hv := hw self v hx.1.2
+      have hr := hs self r hx.2
+      simp [cKVs, kvsEq, hv.1, hv.2, hr.1, hr.2]
+
+theorem cEq_closed (T : Table) (flip : Bool) (self : Val) {v : Val} (w : Val) (hv : closed v = true) :
+    cEq T flip self v w = if flip then vEq T w v else vEq T v w := by
+  cases flip
+  · simpa using ((cEq_closed_all T).1 w self v hv).1
+  · simpa using ((cEq_closed_all T).1 w self v hv).2
+
+/-- Under CPython's dispatch an instance that refers to itself can only equal an instance of the same class. -/
+theorem cEq_inst {T : Table} (hT : wfTable T = true) (flip : Bool) (s : Val) (c1 c2 : Nat) (f1 f2 : Vals) :
+    cEq T flip s (.inst c1 f1) (.inst c2 f2) =
+      (c1 == c2 && cFields T flip (.inst c1 f1) (T.attrs c1) f1 f2) := by
+  simp only [cEq, resolve]
+  by_cases hc : c1 = c2
+  · subst hc
+    cases flip <;> simp [isProperSub, isSub_refl]
+  · have hne : (c1 == c2) = false := by simpa using hc
+    simp only [hne, Bool.false_and]
+    have h12 : isSub T c1 c2 = true → isSub T c2 c1 = false := by
+      intro h; rw [Bool.eq_false_iff]; intro h'; exact hc (isSub_antisymm hT h h')
+    have h21 : isSub T c2 c1 = true → isSub T c1 c2 = false := by
+      intro h; rw [Bool.eq_false_iff]; intro h'; exact hc (isSub_antisymm hT h' h)
+    cases flip
+    · simp only [Bool.false_eq_true, if_false]
+      split
+      · rename_i hp
+        unfold isProperSub at hp
+        simp only [Bool.and_eq_true] at hp
+        simp [h21 hp.2]
+      · rename_i hp
+        cases h : isSub T c2 c1 with
+        | false => simp
+        | true =>
+          exfalso; apply hp
+          unfold isProperSub
+          simp only [Bool.and_eq_true, bne_iff_ne, ne_eq]
+          exact ⟨fun e => hc e.symm, h⟩
+    · simp only [if_true]
+      split
+      · rename_i hp
+        unfold isProperSub at hp
+        simp only [Bool.and_eq_true] at hp
+        simp [h12 hp.2]
+      · rename_i hp
+        cases h : isSub T c1 c2 with
+        | false => simp
+        | true =>
+          exfalso; apply hp
+          unfold isProperSub
+          simp only [Bool.and_eq_true, bne_iff_ne, ne_eq]
+          exact ⟨hc, h⟩
+
+theorem cAttr_of_reaches (T : Table) (flip : Bool) (self : Val) {v : Val} (w : Val) (h : reaches v = true) :
+    cAttr T flip self v w = cEq T flip self v w := by
+  cases v <;> simp [reaches] at h <;> cases w <;> simp [cAttr]
+
+theorem nthVal_nil (k : Nat) : nthVal .nil k = .missing := by cases k <;> rfl
+
+/-- **An instance that holds itself under a compared attribute never equals a finite value** — directly
+(`x.a = x`) or inside lists / sets / dict values (`x.a = [x]`, `{"k": x}`) — whichever operand comes first. The
+comparison descends into the finite operand in step with the self-reference and runs out of structure. -/
+theorem selfref_all {T : Table} (hT : wfTable T = true) (c : Nat) (fs : Vals) (i : Nat)
+    (hi : i < (T.attrs c).length) (hcmp : ((T.attrs c)[i]).compare = true)
+    (hreach : reaches (nthVal fs i) = true) :
+    (∀ w, closed w = true → wfVal T w = true →
+        (∀ flip s, cEq T flip s (.inst c fs) w = false) ∧
+        (∀ flip v, reaches v = true → cEq T flip (.inst c fs) v w = false)) ∧
+    (∀ ys, closedVals ys = true → wfVals T ys = true →
+        (∀ flip xs, reachesVals xs = true → cVals T flip (.inst c fs) xs ys = false) ∧
+        (∀ flip (as : List AttrInfo) xs (k : Nat) (hk : k < as.length), (as[k]).compare = true →
+            reaches (nthVal xs k) = true → k < lenV ys → cFields T flip (.inst c fs) as xs ys = false)) ∧
+    (∀ ys, closedKVs ys = true → wfKVs T ys = true →
+        ∀ flip xs, reachesKVs xs = true → cKVs T flip (.inst c fs) xs ys = false) := by
+  apply val_induction
+  · intro _ _
+    exact ⟨fun flip s => by cases flip <;> simp [cEq, vEq],
+           fun flip v hv => by cases flip <;> cases v <;> simp_all [cEq, vEq, reaches]⟩
+  · intro n _ _
+    exact ⟨fun flip s => by cases flip <;> simp [cEq, vEq],
+           fun flip v hv => by cases flip <;> cases v <;> simp_all [cEq, vEq, reaches]⟩
+  · intro t _ _
+    exact ⟨fun flip s => by cases flip <;> simp [cEq, vEq],
+           fun flip v hv => by cases flip <;> cases v <;> simp_all [cEq, vEq, reaches]⟩
+  · intro n _ _
+    exact ⟨fun flip s => by cases flip <;> simp [cEq, vEq],
+           fun flip v hv => by cases flip <;> cases v <;> simp_all [cEq, vEq, reaches]⟩
+  · intro ys ih hcl hwf
+    have ih := ih (by simpa [closed] using hcl) (by simpa [wfVal] using hwf)
+    refine ⟨fun flip s => by simp [cEq], fun flip v hv => ?_⟩
+    cases v with
+    | list xs => simpa [cEq] using ih.1 flip xs (by simpa [reaches] using hv)
+    | _ => simp [cEq]
+  · intro ys ih hcl hwf
+    have ih := ih (by simpa [closed] using hcl) (by simpa [wfVal] using hwf)
+    refine ⟨fun flip s => by simp [cEq], fun flip v hv => ?_⟩
+    cases v with
+    | dict xs => simpa [cEq] using ih flip xs (by simpa [reaches] using hv)
+    | _ => simp [cEq]
+  · intro ys ih hcl hwf
+    have ih := ih (by simpa [closed] using hcl) (by simpa [wfVal] using hwf)
+    refine ⟨fun flip s => by simp [cEq], fun flip v hv => ?_⟩
+    cases v with
+    | set xs => simpa [cEq] using ih.1 flip xs (by simpa [reaches] using hv)
+    | _ => simp [cEq]
+  · intro c2 f2 ih hcl hwf
+    simp only [wfVal, Bool.and_eq_true, beq_iff_eq] at hwf
+    have ih := ih (by simpa [closed] using hcl) hwf.2
+    have main : ∀ flip s, cEq T flip s (.inst c fs) (.inst c2 f2) = false := by
+      intro flip s
+      rw [cEq_inst hT]
+      by_cases hc : c = c2
+      · subst hc
+        rw [ih.2 flip (T.attrs c) fs i hi hcmp hreach (by rw [hwf.1]; exact hi)]
+        simp
+      · have : (c == c2) = false := by simpa using hc
+        simp [this]
+    refine ⟨main, fun flip v hv => ?_⟩
+    cases v with
+    | selfRef =>
+      have := main flip .none
+      simpa [cEq, resolve] using this
+    | _ => simp [reaches] at hv <;> simp [cEq, resolve]
+  · intro o f _ _
+    exact ⟨fun flip s => by cases flip <;> simp [cEq, vEq],
+           fun flip v hv => by cases flip <;> cases v <;> simp_all [cEq, vEq, reaches]⟩
+  · intro j _ _
+    exact ⟨fun flip s => by cases flip <;> simp [cEq, vEq],
+           fun flip v hv => by cases flip <;> cases v <;> simp_all [cEq, vEq, reaches]⟩
+  · intro j _ _
+    exact ⟨fun flip s => by cases flip <;> simp [cEq, vEq],
+           fun flip v hv => by cases flip <;> cases v <;> simp_all [cEq, vEq, reaches]⟩
+  · intro j _ _
+    exact ⟨fun flip s => by cases flip <;> simp [cEq, vEq],
+           fun flip v hv => by cases flip <;> cases v <;> simp_all [cEq, vEq, reaches]⟩
+  · intro _ _
+    exact ⟨fun flip s => by cases flip <;> simp [cEq, vEq],
+           fun flip v hv => by cases flip <;> cases v <;> simp_all [cEq, vEq, reaches]⟩
+  · intro hcl _; simp [closed] at hcl
+  · intro _ _
+    refine ⟨fun flip xs hx => ?_, fun flip as xs k hk _ _ hl => ?_⟩
+    · cases xs <;> simp_all [cVals, reachesVals]
+    · simp [lenV] at hl
+  · intro w s hw hs hcl hwf
+    simp only [closedVals, Bool.and_eq_true] at hcl
+    simp only [wfVals, Bool.and_eq_true] at hwf
+    have hw := hw hcl.1 hwf.1
+    have hs := hs hcl.2 hwf.2
+    refine ⟨fun flip xs hx => ?_, fun flip as xs k hk hc hr hl => ?_⟩
+    · cases xs with
+      | nil => simp [reachesVals] at hx
+      | cons v r =>
+        simp only [reachesVals, Bool.or_eq_true] at hx
+        simp only [cVals]
+        rcases hx with hx | hx
+        · rw [hw.2 flip v hx]; simp
+        · rw [hs.1 flip r hx]; simp
+    · cases as with
+      | nil => simp at hk
+      | cons a as =>
+        cases xs with
+        | nil => rw [nthVal_nil] at hr; simp [reaches] at hr
+        | cons v r =>
+          rw [cFields_cons]
+          cases k with
+          | zero =>
+            simp only [List.getElem_cons_zero] at hc
+            simp only [nthVal] at hr
+            rw [cAttr_of_reaches T flip _ w hr, hw.2 flip v hr, hc]; simp
+          | succ k =>
+            simp only [List.getElem_cons_succ] at hc
+            simp only [nthVal] at hr
+            rw [hs.2 flip as r k (by simpa using hk) hc hr (by simpa [lenV] using hl)]; simp
+  · intro _ _ flip xs hx
+    cases xs <;> simp_all [cKVs, reachesKVs]
+  · intro l w s _ hw hs hcl hwf flip xs hx
+    simp only [closedKVs, Bool.and_eq_true] at hcl
+    simp only [wfKVs, Bool.and_eq_true] at hwf
+    cases xs with
+    | nil => simp [reachesKVs] at hx
+    | cons k v r =>
+      simp only [reachesKVs, Bool.or_eq_true] at hx
+      simp only [cKVs]
+      rcases hx with hx | hx
+      · rw [(hw hcl.1.2 hwf.1.2).2 flip v hx]; simp
+      · rw [hs hcl.2 hwf.2 flip r hx]; simp
+
+theorem reaches_not_closed :
+    (∀ v, reaches v = true → closed v = false) ∧
+    (∀ xs, reachesVals xs = true → closedVals xs = false) ∧
+    (∀ kvs, reachesKVs kvs = true → closedKVs kvs = false) := by
+  apply val_induction <;> try (intros; simp_all [reaches, closed]; done)
+  · simp [reachesVals]
+  · intro v r hv hr h
+    simp only [reachesVals, Bool.or_eq_true] at h
+    simp only [closedVals]
+    rcases h with h | h
+    · rw [hv h]; simp
+    · rw [hr h]; simp
+  · simp [reachesKVs]
+  · intro k v r _ hv hr h
+    simp only [reachesKVs, Bool.or_eq_true] at h
+    simp only [closedKVs]
+    rcases h with h | h
+    · rw [hv h]; simp
+    · rw [hr h]; simp
+
+theorem closedVals_nth : ∀ (i : Nat) (fs : Vals), closedVals fs = true → closed (nthVal fs i) = true := by
+  intro i
+  induction i with
+  | zero =>
+    intro fs h
+    cases fs with
+    | nil => rfl
+    | cons v r => simp only [closedVals, Bool.and_eq_true] at h; exact h.1
+  | succ i ih =>
+    intro fs h
+    cases fs with
+    | nil => rfl
+    | cons v r => simp only [closedVals, Bool.and_eq_true] at h; exact ih r h.2
+
+/-- An instance that holds itself under some attribute is not a finite tree. -/
+theorem not_closed_of_reaches {c : Nat} {fs : Vals} {i : Nat} (h : reaches (nthVal fs i) = true) :
+    closed (.inst c fs) = false := by
+  rw [Bool.eq_false_iff]
+  intro hc
+  have := closedVals_nth i fs (by simpa [closed] using hc)
+  rw [reaches_not_closed.1 _ h] at this
+  cases this
 
 /-! ### repr -/
 
